@@ -32,7 +32,10 @@ def main():
     checks = (a.checks or a.prop).split(",")
     wt = "/tmp/seedtest-%s-%d" % (a.seed, os.getpid())
     sh("git -C /repo worktree add -q --detach %s HEAD" % wt)
-    meta = {"seed": a.seed, "breaks_property": a.prop, "repo_head": sh("git -C /repo rev-parse --short HEAD")[1].strip(), "note": a.note, "ran": []}
+    notes = {}
+    try: notes = json.load(open(os.path.join(ROOT, "seeded", "notes.json"))).get(a.seed, {})
+    except Exception: pass
+    meta = {"seed": a.seed, "breaks_property": a.prop, "what_was_changed": notes.get("what", ""), "needs_in_order_to_manifest": notes.get("needs", a.note), "repo_head": sh("git -C /repo rev-parse --short HEAD")[1].strip(), "note": a.note, "ran": []}
     try:
         demo_text = open(a.demo).read()
         crate, name = demo_place(demo_text)
